@@ -4,6 +4,7 @@ CONSTANTS
   Dev_h13 = FALSE
   Dev_t127 = FALSE
   Dev_mdict = FALSE
+  Dev_osrep = FALSE
   Dev_dparr = FALSE
 POSTCONDITION Consumed
 CHECK_DEADLOCK FALSE
